@@ -76,3 +76,7 @@ package environment
 // The compiled-regexp cache is shared by every evaluator of the process.
 //@ func cachedRegexp(reg string) (r *regexp.Regexp, err error)
 //@   guarded_global regCache regCacheMutex
+
+//@ func New() (result *Environment)
+//@   ensures @C17 new.env: result != nil && fresh(result) && result.global != nil && result.functions != nil && len(result.local) == 0
+//@   panics never
